@@ -64,6 +64,10 @@ Lemma wait_coh_frame s s1 :
   s_control s1 = s_control s -> s_last s1 = s_last s -> wait_coh s -> wait_coh s1.
 Proof. intros E1 E2 H se dl rs Hc. rewrite E1 in Hc. rewrite E2. eauto. Qed.
 
+(* the source remembered with a deferred READ is a master the session listens to *)
+Definition def_ok (cfg : ocfg) (s : ostate) : Prop :=
+  forall d, s_deferred s = Some d -> o_any_master cfg = false -> df_from d = o_master cfg.
+
 (* ---------- handle_one_request_from_idle ----------------------------------------------------------------------- *)
 
 Definition confirm_series (se : option series) (r : response) : option series :=
@@ -345,9 +349,193 @@ Proof.
       apply process_broadcast_spec in Ep as [[[Fc [Fl [Fd [Fp [Fn Fu]]]]] Fb] S]. inv_pair H.
       psimpl_in Fc. psimpl_in Fl. psimpl_in Fp. psimpl_in Fn. psimpl_in Fu. psimpl_in Fb.
       apply Hsame; auto. unfold wait_frame; auto.
-    + inv_pair H. apply Hsame; auto; try reflexivity; [|intros X; congruence].
-      destruct (s_last_bcast s) as [[]|]; unfold wait_frame; psimpl; auto.
-      all: try (destruct (s_last_bcast s) as [[]|]; psimpl; reflexivity).
+    + destruct (s_last_bcast s) as [[]|]; inv_pair H; apply Hsame; auto; try reflexivity;
+        try (intros X; congruence); try (unfold wait_frame; psimpl; auto).
     + destruct (q =? ctl_seq (r_ctl resp)); inv_pair H; apply Hsame; auto; try reflexivity;
-        unfold wait_frame; psimpl; auto.
+        try (intros X; congruence); try (unfold wait_frame; psimpl; auto).
+Qed.
+
+Lemma unsol_wait_fragment_def_ok cfg s resp from bc bytes d fid s1 res o :
+  unsol_wait_fragment cfg s resp from bc bytes d fid = (s1, res, o) ->
+  def_ok cfg s -> def_ok cfg s1.
+Proof.
+  unfold unsol_wait_fragment. intros H Hd.
+  assert (Hnone : forall s', s_deferred s' = None -> def_ok cfg s').
+  { intros s' E x Hx. congruence. }
+  assert (Hsame : forall s', s_deferred s' = s_deferred s -> def_ok cfg s').
+  { intros s' E x Hx. rewrite E in Hx. auto. }
+  destruct (to_treq cfg from d) as [|q|ctl fn obj] eqn:Et.
+  - inv_pair H. exact Hd.
+  - destruct (write_error_response (upd_deferred s None) from bc q) as [s2 o2] eqn:Ew.
+    apply write_error_response_spec in Ew as [[[Fc [Fl [Fd _]]] Fb] _]. inv_pair H. apply Hnone. exact Fd.
+  - pose proof (to_treq_from _ _ _ _ _ _ Et) as Hfrom.
+    destruct (classify s bc bytes ctl fn obj) as [iin2|hdrs rh|resp0 hdrs rh|hdrs|resp0|m|q|q] eqn:Ecl.
+    + destruct (write_solicited (upd_deferred s None) from (empty_solicited (ctl_seq ctl) iin2)) as [[s2 r2] o2] eqn:Ew.
+      apply write_solicited_spec in Ew as [[[Fc [Fl [Fd _]]] Fb] _]. inv_pair H. apply Hnone. exact Fd.
+    + inv_pair H. intros x Hx. psimpl_in Hx. inversion Hx; subst x. exact Hfrom.
+    + inv_pair H. intros x Hx. psimpl_in Hx. inversion Hx; subst x. exact Hfrom.
+    + destruct (handle_non_read cfg (upd_deferred s None) fn (ctl_seq ctl) fid bytes hdrs) as [[s2 r] o1] eqn:Eh.
+      apply handle_non_read_spec in Eh as [[Fc [Fl [Fd _]]] S1]. psimpl_in Fd.
+      destruct r as [r0|].
+      * destruct (write_solicited s2 from r0) as [[s3 r1] o2] eqn:Ew.
+        apply write_solicited_spec in Ew as [[[Gc [Gl [Gd _]]] Gb] _]. inv_pair H.
+        apply Hnone. psimpl. congruence.
+      * inv_pair H. apply Hnone. psimpl. congruence.
+    + inv_pair H. apply Hnone. reflexivity.
+    + destruct (process_broadcast cfg (upd_deferred s None) m fid ctl fn bytes obj) as [s2 o2] eqn:Ep.
+      apply process_broadcast_spec in Ep as [[[Fc [Fl [Fd _]]] Fb] S]. inv_pair H. apply Hnone. exact Fd.
+    + destruct (s_last_bcast s) as [[]|]; inv_pair H; apply Hsame; reflexivity.
+    + destruct (q =? ctl_seq (r_ctl resp)); inv_pair H; apply Hsame; reflexivity.
+Qed.
+
+(* ---------- unsolicited: starting and ending a series ------------------------------------------------------------------ *)
+
+Lemma start_unsol_spec cfg h s r is_null s1 o :
+  start_unsol cfg s r is_null = (s1, o) ->
+  frame (upd_control s (s_control s1)) s1 /\ forallb ustart o = true /\
+  exists r1 rt dl, s_control s1 = CUnsolWait r1 is_null rt dl /\ r_fn r1 = r_fn r /\
+    opened_by (h ++ o) (o_master cfg) (response_bytes r1 (s_unsol_buf s1)) (ctl_seq (r_ctl r1)).
+Proof.
+  unfold start_unsol. destruct (write_unsolicited cfg s r) as [[s0 r1] o0] eqn:Ew.
+  apply write_unsolicited_spec in Ew as [F [_ [Hfn [_ [o' [-> S]]]]]]. intros H; inv_pair H.
+  split; [frame_tac|]. split.
+  - rewrite !forallb_app, (forallb_imp _ _ _ dbq_ustart S). reflexivity.
+  - eexists r1, _, _. psimpl. split; [reflexivity|]. split; [exact Hfn|].
+    exists (h ++ o'), []. split; [|reflexivity]. rewrite <- !app_assoc. reflexivity.
+Qed.
+
+Lemma check_unsolicited_spec cfg h s s1 ns o :
+  check_unsolicited cfg s = (s1, ns, o) ->
+  s_control s = CIdle ->
+  s_last s1 = s_last s /\ s_sol_buf s1 = s_sol_buf s /\ s_deferred s1 = s_deferred s /\
+  s_pending s1 = s_pending s /\ s_notify s1 = s_notify s /\
+  forallb ustart o = true /\ unsol_coh cfg (h ++ o) s1 /\
+  (s_control s1 = CIdle \/ exists r1 n rt dl, s_control s1 = CUnsolWait r1 n rt dl).
+Proof.
+  unfold check_unsolicited. intros H Hc.
+  assert (Hsame : forall s', frame s s' ->
+     s_last s' = s_last s /\ s_sol_buf s' = s_sol_buf s /\ s_deferred s' = s_deferred s /\
+     s_pending s' = s_pending s /\ s_notify s' = s_notify s /\
+     forallb ustart [] = true /\ unsol_coh cfg (h ++ []) s' /\
+     (s_control s' = CIdle \/ exists r1 n rt dl, s_control s' = CUnsolWait r1 n rt dl)).
+  { intros s' [[Fc [Fl [Fd [Fp [Fn Fu]]]]] Fb]. splits; auto.
+    - apply unsol_coh_vacuous. intros resp n rt dl X. rewrite Fc, Hc in X. discriminate.
+    - left. congruence. }
+  assert (Hstart : forall s0 r is_null pre s1' o', start_unsol cfg s0 r is_null = (s1', o') ->
+     frame s (upd_unsol_buf s0 (s_unsol_buf s)) -> r_fn r = fn_unsol_response -> forallb ustart pre = true ->
+     s_last s1' = s_last s /\ s_sol_buf s1' = s_sol_buf s /\ s_deferred s1' = s_deferred s /\
+     s_pending s1' = s_pending s /\ s_notify s1' = s_notify s /\
+     forallb ustart (pre ++ o') = true /\ unsol_coh cfg (h ++ pre ++ o') s1' /\
+     (s_control s1' = CIdle \/ exists r1 n rt dl, s_control s1' = CUnsolWait r1 n rt dl)).
+  { intros s0 r is_null pre s1' o' Hs F Hfn Sp.
+    apply start_unsol_spec with (h := h ++ pre) in Hs as [[[Gc [Gl [Gd [Gp [Gn Gu]]]]] Gb] [S [r1 [rt [dl [Hc1 [Hfn1 Hop]]]]]]].
+    destruct F as [[Fc [Fl [Fd [Fp [Fn Fu]]]]] Fb].
+    psimpl_in Gl. psimpl_in Gd. psimpl_in Gp. psimpl_in Gn. psimpl_in Gb.
+    psimpl_in Fl. psimpl_in Fd. psimpl_in Fp. psimpl_in Fn. psimpl_in Fb.
+    splits; try congruence.
+    - rewrite forallb_app, Sp, S. reflexivity.
+    - intros resp n rt' dl' Hc'. rewrite Hc1 in Hc'. inversion Hc'; subst. split; [|congruence].
+      rewrite app_assoc. exact Hop.
+    - right. eauto. }
+  destruct (negb (o_unsol cfg)); [inv_pair H; apply Hsame, frame_refl|].
+  destruct (s_unsol s) as [|deadline].
+  - destruct (start_unsol cfg (upd_unsol_seq s (seq16_next (s_unsol_seq s))) (unsol_header (s_unsol_seq s) 0) true)
+      as [s2 o2] eqn:Es. inv_pair H.
+    apply (Hstart _ _ _ []) in Es; auto. frame_tac.
+  - destruct (negb match deadline with Some t => (t <=? s_now s)%Z | None => true end);
+      [inv_pair H; apply Hsame, frame_refl|].
+    destruct (negb (any_enabled s)); [inv_pair H; apply Hsame, frame_refl|].
+    destruct (ask_unsol s) as [s0 [count body]] eqn:Ea. apply ask_unsol_spec in Ea.
+    destruct (s_enabled s) as [[c1 c2] c3].
+    destruct (count =? 0); [inv_pair H; apply Hsame; exact Ea|].
+    match type of H with context [start_unsol cfg ?a ?b ?c] => destruct (start_unsol cfg a b c) as [s3 o3] eqn:Es end.
+    inv_pair H.
+    apply (Hstart _ _ _ [ODb (DbWriteUnsol c1 c2 c3)]) in Es; auto.
+    destruct Ea as [[Fc [Fl [Fd [Fp [Fn Fu]]]]] Fb]. frame_tac.
+Qed.
+
+Lemma end_unsol_spec cfg s is_null res s1 ns o :
+  end_unsol cfg s is_null res = (s1, ns, o) ->
+  frame (upd_control s CIdle) s1 /\ forallb dbq o = true.
+Proof.
+  unfold end_unsol. destruct is_null, res; intros H; inv_pair H; (split; [frame_tac | reflexivity]).
+Qed.
+
+(* ---------- handle_deferred_read -------------------------------------------------------------------------------------- *)
+
+Lemma handle_deferred_none cfg s ns : s_deferred s = None -> handle_deferred cfg s ns = (s, []).
+Proof. unfold handle_deferred. intros ->. reflexivity. Qed.
+
+Lemma handle_deferred_pres cfg h s ns s1 o :
+  handle_deferred cfg s ns = (s1, o) ->
+  s_control s = CIdle -> def_ok cfg s ->
+  sol_coh cfg h s ->
+  sol_coh cfg (h ++ o) s1 /\ wait_coh s1 /\
+  s_deferred s1 = None /\ s_pending s1 = s_pending s /\ s_unsol_buf s1 = s_unsol_buf s /\
+  (s_control s1 = CIdle \/ exists se dl, s_control s1 = CSolWait se dl (RStep4 ns)) /\
+  forallb bg o = true.
+Proof.
+  unfold handle_deferred. intros H Hc Hdef Hcoh.
+  destruct (s_deferred s) as [d|] eqn:Ed.
+  2:{ inv_pair H. splits; auto.
+      - apply sol_coh_frame with (s := s1); auto.
+      - apply wait_coh_not_wait. intros se dl rs. rewrite Hc. discriminate. }
+  destruct (ask_iin2 (upd_notify (upd_deferred s None) true) DbDeferredSelect) as [[s2 iin2] o1] eqn:E1.
+  destruct (format_read_response s2 true (df_seq d) (N.lor (df_iin2 d) iin2)) as [[[s3 r] se] o2] eqn:E2.
+  destruct (write_solicited s3 (df_from d) r) as [[s4 r'] o3] eqn:E3.
+  apply ask_iin2_spec in E1 as [[[Ac [Al [Ad [Ap [An Au]]]]] Ab] S1].
+  apply format_read_response_spec in E2 as [[Bc [Bl [Bd [Bp [Bn Bu]]]]] [S2 [Q1 Q2]]].
+  apply write_solicited_spec in E3 as [[[Cc [Cl [Cd [Cp [Cn Cu]]]]] Cb] [_ [_ [Hq [o' [-> S3]]]]]].
+  psimpl_in Ac. psimpl_in Al. psimpl_in Ad. psimpl_in Ap. psimpl_in Au.
+  cbv zeta in H.
+  assert (Hk : forall s5 o4, s_last s5 = mk_last (df_seq d) (df_bytes d) (Some r') se ->
+               s_sol_buf s5 = s_sol_buf s4 ->
+               sol_coh cfg (h ++ o1 ++ o2 ++ (o' ++ [OTx (df_from d) (response_bytes r' (s_sol_buf s4))]) ++ o4) s5).
+  { intros s5 o4 Hl Hb l r0 Hl0 Hr0. rewrite Hl in Hl0. inversion Hl0; subst l. cbn [lr_response] in Hr0.
+    inversion Hr0; subst r0. rewrite Hb. exists (df_from d). split; [|apply Hdef; exact Ed].
+    rewrite ?in_app_iff. cbn [In]. tauto. }
+  assert (Hws : forall x, match se with
+                          | None => if ctl_con (r_ctl r') then Some {| se_ecsn := ctl_seq (r_ctl r'); se_fin := true |} else None
+                          | x => x end = Some x -> ctl_seq (r_ctl r') = se_ecsn x mod 16).
+  { intros x Hx. destruct se as [y|].
+    - inversion Hx; subst y. rewrite Hq, (Q2 _ eq_refl). exact Q1.
+    - destruct (ctl_con (r_ctl r')); inversion Hx; subst x. cbn [se_ecsn]. unfold ctl_seq. lia. }
+  assert (Sbg : forallb bg (o1 ++ o2 ++ o' ++ [OTx (df_from d) (response_bytes r' (s_sol_buf s4))]) = true).
+  { rewrite !forallb_app, (forallb_imp _ _ _ dbq_bg S1), (forallb_imp _ _ _ dbq_bg S2), (forallb_imp _ _ _ dbq_bg S3). reflexivity. }
+  match type of H with (match ?c with _ => _ end) = _ => destruct c as [x|] eqn:Ese end; inv_pair H.
+  - splits.
+    + apply Hk; psimpl; auto.
+    + intros se0 dl rs Hx. psimpl_in Hx. inversion Hx; subst. psimpl.
+      eexists _, r'. split; [reflexivity|]. split; [reflexivity|]. apply Hws. reflexivity.
+    + psimpl. congruence.
+    + psimpl. congruence.
+    + psimpl. congruence.
+    + right. psimpl. eauto.
+    + rewrite !app_assoc, forallb_app. rewrite <- !app_assoc, Sbg. reflexivity.
+  - splits.
+    + specialize (Hk (upd_last s4 (mk_last (df_seq d) (df_bytes d) (Some r') se)) []). rewrite app_nil_r in Hk.
+      apply Hk; psimpl; auto.
+    + apply wait_coh_not_wait. intros se0 dl rs. psimpl. rewrite Cc, Bc, Ac, Hc. discriminate.
+    + psimpl. congruence.
+    + psimpl. congruence.
+    + psimpl. congruence.
+    + left. psimpl. congruence.
+    + exact Sbg.
+Qed.
+
+(* what handle_deferred does to the wake-up permit: set when there was a deferred READ *)
+Lemma handle_deferred_notify cfg s ns s1 o :
+  handle_deferred cfg s ns = (s1, o) ->
+  match s_deferred s with None => s_notify s1 = s_notify s | Some _ => s_notify s1 = true end.
+Proof.
+  unfold handle_deferred. intros H.
+  destruct (s_deferred s) as [d|] eqn:Ed; [|inv_pair H; reflexivity].
+  destruct (ask_iin2 (upd_notify (upd_deferred s None) true) DbDeferredSelect) as [[s2 iin2] o1] eqn:E1.
+  destruct (format_read_response s2 true (df_seq d) (N.lor (df_iin2 d) iin2)) as [[[s3 r] se] o2] eqn:E2.
+  destruct (write_solicited s3 (df_from d) r) as [[s4 r'] o3] eqn:E3.
+  apply ask_iin2_spec in E1 as [[[Ac [Al [Ad [Ap [An Au]]]]] Ab] S1].
+  apply format_read_response_spec in E2 as [[Bc [Bl [Bd [Bp [Bn Bu]]]]] [S2 [Q1 Q2]]].
+  apply write_solicited_spec in E3 as [[[Cc [Cl [Cd [Cp [Cn Cu]]]]] Cb] _].
+  psimpl_in An. cbv zeta in H.
+  match type of H with (match ?c with _ => _ end) = _ => destruct c as [x|] end; inv_pair H; psimpl; congruence.
 Qed.
